@@ -187,7 +187,11 @@ class Run:
             print('KNOWN-FINDING: property=%s %s [%s]' % (self.pid, key, msg))
         rc = EXIT_OK
         os.makedirs(os.path.join(VERIF, 'replays'), exist_ok=True)
+        seen = {}
         for key, msg, replay in self.violations:
+            seen[key] = seen.get(key, 0) + 1
+            if seen[key] > 3:           # at most three witnesses per failing call-site class are written out
+                continue
             h = hashlib.sha256(json.dumps([key, replay], sort_keys=True, default=str).encode()).hexdigest()[:10]
             path = os.path.join(VERIF, 'replays', '%s-%s.json' % (self.pid, h))
             with open(path, 'w') as f:
